@@ -101,6 +101,36 @@ def prereq_table(P, R):
     R.floor('C06.TAB.1', 6)
 
 
+def type_range(P, R, rule='C06.TAB.2'):
+    """Every value stored into a service's protocol field is one of the enumerators: code that tests the protocol
+    by exclusion (`!= DRONECHECK`) or indexes the per-protocol tables relies on it.  Decided by the numeric analysis."""
+    from .. import numeric
+    enum = P.enums.get('iauth_xquery_type', [])
+    if not enum:
+        raise AnalysisBroken('the protocol enum has vanished')
+    hi = max(c['v'] for c in enum)
+    n = 0
+    for f in P.unit_fns(UNIT):
+        an = None
+        for s in f.stores():
+            ev = s.ev
+            if ev['k'] != 'store' or not is_field(ev.get('lhs'), 'type') or ev.get('op') != '=':
+                continue
+            rec = (ev['lhs'].get('rec') or '')
+            if 'service' not in rec:
+                continue
+            rhs = ev.get('rhs') or {}
+            n += 1
+            if rhs.get('k') == 'enum':
+                R.ob(rule, True, s, 'the protocol stored is the enumerator %s' % rhs['name'], key='type-store:%s' % f.name, nontrivial=False)
+                continue
+            if an is None:
+                an = numeric.Analysis(f)
+            lo, hi_ = an.range_of(rhs, an.at(s))
+            R.ob(rule, lo is not None and lo >= 0 and hi_ <= hi, s, 'the protocol stored (%s) is one of the %d enumerators: inferred range [%s, %s]' % (sx(rhs), hi + 1, lo, hi_), key='type-store:%s' % f.name)
+    R.floor(rule, 1)
+
+
 ATOMS = ['slot', 'configured', 'prereq', 'unsent', 'pwevent', 'notdrone', 'pw', 'cls']
 
 
@@ -388,6 +418,31 @@ def field_capacity(P, R):
     R.floor('C06.BND.2', 5, 'copies into server-supplied fields')
 
 
+def username_limit(P, R, b, rule='C06.BND.3'):
+    """The user name sent in a query is cut at the documented length: the local buffer it is assembled in (ident,
+    or `~` + claimed name) is terminated at index USERLEN = capacity of the request's user-name fields."""
+    ext = (P.record_field(core.REQ_REC, 'cli_username') or {}).get('array')
+    if not ext:
+        raise AnalysisBroken('the request record has no cli_username array')
+    bufs = set()
+    for s in b.calls():
+        if s.ev.get('callee') in ('strncpy', 'strlcpy', 'memcpy', 'snprintf') and len(s.ev['args']) >= 2:
+            if any(on_path(x, 'cli_username', core.REQ_REC) or on_path(x, 'auth_username', core.REQ_REC) for a in s.ev['args'][1:] for x in walk(a)):
+                rv = root_var(s.ev['args'][0])
+                if rv is not None and rv.get('sc') == 'local' and isinstance(rv.get('arr'), int):
+                    bufs.add(rv['name'])
+    n = 0
+    for v in sorted(bufs):
+        terms = [s for s in b.stores() if s.ev['k'] == 'store' and (s.ev['lhs'] or {}).get('k') == 'idx' and is_var(s.ev['lhs']['base'], v)
+                 and const_of(s.ev.get('rhs')) == 0 and isinstance(const_of(s.ev['lhs']['index']), int) and const_of(s.ev['lhs']['index']) > 0]
+        for t in terms:
+            n += 1
+            k = const_of(t.ev['lhs']['index'])
+            R.ob(rule, k == ext - 1, t, 'the query\'s user name (buffer %s) is cut after %d characters; the documented limit is %d' % (v, k, ext - 1), key='userlen:%s' % v)
+    if n == 0:
+        R.note('%s: no constant-index terminator of a user-name buffer found; the cut is judged by the bounded-copy rules only' % rule)
+
+
 def shape_gate(P, R, b):
     # the function that stores the client's password
     stores = []
@@ -453,6 +508,11 @@ def run(P, R, tier):
     formats(P, R, xq, b)
     bnd.check_scope(P, R, 'C06.BND.1', bnd.reader_scope(P))
     field_capacity(P, R)
+    username_limit(P, R, b)
     shape_gate(P, R, b)
     query_callers(P, R, xq, b)
+    type_range(P, R)
+    # queries carry the data exactly as the server reported it
+    from . import c08
+    c08.line_buffer_writes(P, R, 'C06.WMC.2')
     return EXPLANATION, ASSUMPTIONS
